@@ -340,7 +340,7 @@ def minmax_rules(ctx, rule, fi, rest, desc):
     got = seq
     conv = sorted(norm(n) for n in walk_no_nested(fi.node) if isinstance(n, ast.Assign)
                   and norm(n.targets[0]) in ("min_vals", "max_vals"))
-    ctx.check(conv == ["max_vals = [str(m) for m in max_vals]", "min_vals = [str(m) for m in min_vals]"],
+    ctx.check(conv == ["max_vals = [f'{m}' for m in max_vals]", "min_vals = [f'{m}' for m in min_vals]"],
               f"{rule}.FMT-EXACT", site, "min/max values are formatted with str() (round-trip exact)",
               f"min/max values are formatted by {conv}", key="minmax-format")
     ctx.check(got == exp, f"{rule}.H-COPY", site,
